@@ -159,7 +159,7 @@ func init() {
 
 // the committed replays of the repaired shutdown defects: a regression is a violation
 func TestC13_Fixed(t *testing.T) {
-	for _, f := range []string{"findings/C13_schedule_started_after_stop.json", "findings/C13_mitigation_started_after_stop.json", "findings/C13_monitor_round_inflight_at_close.json", "findings/C13_serial_close_after_stream_end.json"} {
+	for _, f := range []string{"findings/C13_schedule_started_after_stop.json", "findings/C13_mitigation_started_after_stop.json", "findings/C13_monitor_round_inflight_at_close.json", "findings/C13_serial_close_after_stream_end.json", "findings/C13_serial_close_leftover_token.json"} {
 		if d := runReplayFile(verifRoot() + "/" + f); d != "" {
 			var rf replayFile
 			b, _ := os.ReadFile(verifRoot() + "/" + f)
